@@ -38,7 +38,7 @@ def gen(rng, facts):
         return gen_exits(facts, rng.choice([1, 2, 3, 17, 64]), rng, poll_between=True)
     # random lifecycle mix
     nl = rng.randint(1, 2)
-    c = Case(dropping=rng.choice([0, 0, 1]), capk=rng.choice([8, 10]), tinit=2, soft=rng.choice([1, 4]), hard=8, grace=rng.choice([0, 1000]),
+    c = Case(dropping=rng.choice([0, 1, 2, 2]), capk=rng.choice([8, 10]), tinit=2, soft=rng.choice([1, 4]), hard=8, grace=rng.choice([0, 1000]),
              loggers=[(0, [0]) for _ in range(nl)], sinks=[(0, [])], facts=facts)
     C = 1 << c.capk
     nt = rng.randint(2, 12); alive = set(); logged = set(); dead = set()
@@ -50,6 +50,7 @@ def gen(rng, facts):
         elif r2 < 0.7: c.exit(t)
         elif r2 < 0.75: c.flush(t)
         elif r2 < 0.8: c.resume(t)
+        elif r2 < 0.87: c.shrink(t, rng.choice([64, 128, 256, 512, 100, 1024, 4096]))     # takes effect on unbounded queues only
         else:
             inj = []
             if rng.random() < 0.3:
@@ -77,6 +78,25 @@ def monitor(case, obs):
     if tr.pending: return None
     # live threads that logged (registered contexts that must be retained) at the end
     logged = set(d['thread'] for d in tr.stmts.values() if d['outcome'] in ('accepted', 'dropped', 'parked')) | set(f['thread'] for f in tr.flushes.values())
+    logged |= set(t for (_, t, _, cap) in tr.shrinks if cap is not None)       # asking for the capacity creates the context too
+    # shrinking takes effect: two capacity reports of one thread with no log call of that thread in between; the second
+    # request is at most half the first report -> the thread then reports the request rounded up to a power of two
+    if case.dropping == 2:
+        last = {}
+        for (pos, t, req, cap) in tr.shrinks:
+            if cap is None: continue
+            if t in last:
+                ppos, pcap = last[t]
+                quiet = not any(d['thread'] == t and ppos < d['pos'] < pos for d in tr.stmts.values()) and \
+                        not any(f['thread'] == t and ppos < f['start'] < pos for f in tr.flushes.values())
+                if quiet and req <= pcap // 2:
+                    want_cap = 1
+                    while want_cap < req: want_cap *= 2
+                    if cap != want_cap:
+                        return 'thread %d reported capacity %d, then shrink(%d) without logging in between: it reports %d, expected %d' % (t, pcap, req, cap, want_cap)
+                elif quiet and cap != pcap:
+                    return 'thread %d reported capacity %d, then shrink(%d) (more than half): it reports %d, the capacity must not change' % (t, pcap, req, cap)
+            last[t] = (pos, cap)
     exited = set(t for (_, t) in tr.exits)
     want = len(logged - exited)
     if tr.ctx:
@@ -92,7 +112,7 @@ def nontrivial(case, obs):
 
 
 RULE = ('thread lifecycles through the driver: bursts of n short-lived threads (each logs once and exits) with n in {1,2,3,17,64,255,256,257} between clean-ups, '
-        'with and without polls in between, plus random mixes of log/exit/flush/poll over 2-12 threads with log+exit injected at yield points; '
+        'with and without polls in between, plus random mixes of log/exit/flush/shrink/poll over 2-12 threads (bounded and unbounded queues; shrink_thread_local_queue with the capacity reported afterwards) with log+exit injected at yield points; '
         'every case ends with a drain and a context count; non-trivial = at least one exit and one delivered statement; distinct by case text')
 
 run = run_be(PID, 'Properties_C20', gen, monitor, nontrivial, RULE, n_quick=120, n_thorough=5000, corpus_cases=corpus_cases)
